@@ -1325,6 +1325,30 @@ func (e *Exec) evalInvariant(f *frame, c *Clause, li *loopInfo, h *Heap, over ma
 	for _, l := range c.Locals {
 		name := strings.Fields(l)[0]
 		v, ok := e.lookupLocal(f, li, name, h, over)
+		if !ok && name != "rangeindex" {
+			// the variable may have been renamed (a harmless edit): if exactly one variable of the declared type
+			// is carried by the loop, it is the one meant
+			want := strings.TrimSpace(strings.TrimPrefix(l, name))
+			var cands []*ssa.Phi
+			for _, in := range li.header.Instrs {
+				phi, isPhi := in.(*ssa.Phi)
+				if !isPhi {
+					break
+				}
+				if phi.Comment != "" && phi.Comment != "rangeindex" && types.TypeString(phi.Type(), func(p *types.Package) string { return p.Name() }) == want {
+					cands = append(cands, phi)
+				}
+			}
+			if len(cands) == 1 {
+				ok = true
+				if o, has := over[cands[0]]; has && over != nil {
+					v = o
+				} else {
+					v = f.vals[cands[0]]
+				}
+				e.eng.assumes[fmt.Sprintf("loop local %q of %s (loop %d) not found by name; bound to the only loop-carried %s variable %q", name, f.fn.Name(), li.ord, want, cands[0].Comment)] = true
+			}
+		}
 		if !ok {
 			panic(fmt.Sprintf("%s:%d: loop local %q not found at loop %d of %s", c.File, c.Line, name, li.ord, f.fn))
 		}
